@@ -65,19 +65,29 @@ def token_string(part, tok):
 class World(object):
     """One real Metadata with a token ring, plus the plain description the spec works on."""
 
-    def __init__(self, part, owners, locs, positions, deltas=None, extreme=()):
+    def __init__(self, part, owners, locs, positions, deltas=None, extreme=(), shared_address=False):
         from cassandra.metadata import Metadata
         from cassandra.pool import Host
         from cassandra.policies import SimpleConvictionPolicy
+        from cassandra.connection import DefaultEndPoint
         pool = key_pool(part)
         self.part = part
         self.owners = tuple(owners)
         self.locs = tuple(locs)
         self.pool = pool
         n_hosts = len(locs)
-        self.hosts = [Host("10.%d.%d.%d" % (1 + sorted(set(l[0] for l in locs)).index(locs[h][0]), h // 200, 1 + h),
-                           SimpleConvictionPolicy, locs[h][0], locs[h][1]) for h in range(n_hosts)]
-        self.index_of = dict((h.address, i) for i, h in enumerate(self.hosts))
+        self.shared_address = shared_address
+        if shared_address:
+            # hosts are identified by their endpoint (address AND port): up to three hosts share one address
+            self.hosts = [Host(DefaultEndPoint("10.7.0.%d" % (1 + h // 3), 9042 + h % 3), SimpleConvictionPolicy, locs[h][0], locs[h][1])
+                          for h in range(n_hosts)]
+        else:
+            self.hosts = [Host("10.%d.%d.%d" % (1 + sorted(set(l[0] for l in locs)).index(locs[h][0]), h // 200, 1 + h),
+                               SimpleConvictionPolicy, locs[h][0], locs[h][1]) for h in range(n_hosts)]
+        # the check's own bookkeeping is by endpoint, never by address alone
+        self.index_of = dict((h.endpoint, i) for i, h in enumerate(self.hosts))
+        if len(self.index_of) != n_hosts:
+            raise ValueError("host endpoints must be pairwise distinct")
         ring = []
         deltas = deltas or [0] * len(owners)
         pool_tokens = set(t for t, _k in pool)
@@ -126,7 +136,7 @@ class World(object):
 
     def driver_replicas(self, ks, key):
         got = self.metadata.get_replicas(ks, key)
-        return [self.index_of[h.address] for h in got]
+        return [self.index_of[h.endpoint] for h in got]
 
 
 def is_known_replay_duplicate(world, strategy, drv, want_set):
@@ -198,6 +208,8 @@ def judge_world(ctx, world, configs, probes_per_ks, rng, origin):
             nontrivial = len(world.locs) >= 2 and rf_total >= 1 and T >= 2
             ctx.case((struct, strategy, sorted(options.items()), start, kind), nontrivial=nontrivial)
             ctx.count("replica_lookups_compared")
+            if world.shared_address:
+                ctx.count("lookups_on_worlds_with_hosts_sharing_an_address")
             ctx.count("probe_" + kind)
             if strategy == "SimpleStrategy":
                 ctx.count("simple_strategy_lookups")
@@ -343,7 +355,9 @@ def random_world(rng):
     T = len(owners)
     positions = sorted(rng.sample(range(len(pool)), T))
     deltas = [rng.choice([0, 0, 1, -1]) for _ in range(T)] if part != "bytes" else [rng.choice([0, 0, 1]) for _ in range(T)]
-    world = World(part, owners, locs, positions, deltas)
+    # a quarter of the worlds put several hosts on one address (different ports); derived from values already
+    # drawn so that the random stream is the same as without this dimension
+    world = World(part, owners, locs, positions, deltas, shared_address=(positions[0] + T) % 4 == 0)
     return world
 
 
